@@ -60,14 +60,29 @@ def gen(rng, arch):
             syms[n] = (v, list(cur))
         elif r < 0.70:
             nlab += 1; n = "dfn%d" % nlab
-            v = rng.randrange(0, 70000); lines.append("@defn %s, %d" % (n, v)); syms[n] = (v, [])
+            if rng.random() < 0.6:
+                v = rng.randrange(0, 70000); lines.append("@defn %s, %d" % (n, v))
+            else:
+                # a constant whose value is only known later: it still carries no metadata, whatever block is open
+                nlab += 1; ln = "late%d" % nlab
+                v = rng.randrange(0, 60000); later[ln] = v
+                lines.append("@defn %s, %s + 1" % (n, ln)); v = v + 1
+            syms[n] = (v, [])
         elif r < 0.78 and syms:
             n = rng.choice(list(syms))
             v = rng.randrange(0, 70000)
-            if rng.random() < 0.5:
+            k2 = rng.random()
+            if k2 < 0.4:
                 lines.append("@redefl %s, %d" % (n, v)); syms[n] = (v, list(cur))
-            else:
+            elif k2 < 0.8:
                 lines.append("@redefn %s, %d" % (n, v)); syms[n] = (v, [])
+            else:
+                nlab += 1; ln = "late%d" % nlab
+                v = rng.randrange(0, 60000); later[ln] = v
+                if k2 < 0.9:
+                    lines.append("@redefn %s, %s + 2" % (n, ln)); syms[n] = (v + 2, [])
+                else:
+                    lines.append("@redefl %s, %s + 2" % (n, ln)); syms[n] = (v + 2, list(cur))
         elif r < 0.86:
             nlab += 1; sn = "Stc%d" % nlab
             lines += ["@struct " + sn, "  fa 2", "  fb @dw", "@endstruct"]
